@@ -112,3 +112,11 @@ From JP Require Import Proofs.TieParse.
 Theorem C12_parser_tables_regenerated : parse_tables_ok = true.
 Proof. exact parse_tables_regenerated. Qed.
 Print Assumptions C12_parser_tables_regenerated.
+
+(* the per-literal condition on floats is met by ordinary floats in each printed shape:  1.5  2.0  -0.1  123456.789  1e-05  1.5e-07 ;
+   a float printed with a positive exponent is outside it (and outside the property's range) *)
+From JP Require Import Spec.Printable.
+Example C12_float_condition_nonvacuous :
+  forallb flt_rt [NFlt 3 (-1); NFlt 1 1; NFlt (-3602879701896397) (-55); NFlt 8483885939586761 (-36); NFlt 5902958103587057 (-69); NFlt 2833419889721787 (-74); NNegZero] = true
+  /\ flt_rt (NFlt 152587890625 16) = false.     (* 1e+16 *)
+Proof. vm_compute. split; reflexivity. Qed.
